@@ -52,6 +52,12 @@ struct Unit {
     gen_base: bool,
 }
 
+impl Unit {
+    fn declares_externs(&self) -> bool {
+        self.text.lines().any(|l| { let l = l.trim_start(); l.starts_with("extern fn") || l.starts_with("extern type") || l.contains(" extern fn ") || l.contains(" extern type ") })
+    }
+}
+
 #[derive(Clone, Copy, Debug)]
 struct Config {
     name: &'static str,
@@ -272,7 +278,11 @@ fn run_config(c: Config, units: &[Unit], dir: &Path, translate: bool) -> ConfigR
             }
         }
     }
-    let ok: Vec<usize> = (0..units.len()).filter(|i| !diags[*i].has_errors && diags[*i].panic.is_none()).collect();
+    // test data that declares its own `extern fn` / `extern type` (allowed there by
+    // #[allow(extern_outside_corelib)]) names libfuncs that do not exist: not compilable by design
+    let ok: Vec<usize> = (0..units.len())
+        .filter(|i| !diags[*i].has_errors && diags[*i].panic.is_none() && !units[*i].declares_externs())
+        .collect();
     let mut compile_failures = vec![];
     let (mut nf, mut ni) = (0, 0);
     // chunks keep the Sierra programs moderate and bound the cost of a bisection
@@ -350,7 +360,17 @@ fn main() {
     for (k, r) in results.iter().enumerate() {
         for (idx, stage, msg) in &r.compile_failures {
             let us: Vec<&Unit> = idx.iter().map(|i| &units[*i]).collect();
-            failures.push(json!({"kind": "error_free_program_does_not_compile", "why": format!("stage {stage}: {msg}"),
+            // known finding F1 (see known_findings.txt): the wrapper of a function specialised by const
+            // folding on a snapshot of a constant of a type without Drop/Destruct is not
+            // borrow-checked.  Recognised by: that panic, and the same unit compiles in the
+            // configurations without const folding.
+            let compiles_without_const_folding = [2usize, 3].iter().all(|c| {
+                !results[*c].compile_failures.iter().any(|(ix, _, _)| ix.iter().any(|i| idx.contains(i)))
+            });
+            let fp = if msg.contains("Borrow checker should have caught this") && compiles_without_const_folding
+                && CONFIGS[k].opt != 2 && CONFIGS[k].opt != 3 && us.iter().all(|u| u.text.contains('@'))
+            { "F1-specialized-snapshot-of-undroppable-const" } else { "" };
+            failures.push(json!({"kind": "error_free_program_does_not_compile", "why": format!("stage {stage}: {msg}"), "fingerprint": fp,
                 "config": CONFIGS[k].name, "unit": us.iter().map(|u| u.name.clone()).collect::<Vec<_>>(),
                 "origin": us.iter().map(|u| u.origin.clone()).collect::<Vec<_>>(),
                 "program": us.iter().take(3).map(|u| u.text.clone()).collect::<Vec<_>>()}));
@@ -364,7 +384,10 @@ fn main() {
     }
 
     // ---------- case shards ----------
-    let cases: Vec<(usize, &trans::FnCase)> = results[0].cases.iter().filter_map(|(i, c)| c.as_ref().ok().map(|c| (*i, c))).collect();
+    let all_cases: Vec<(usize, &trans::FnCase)> = results[0].cases.iter().filter_map(|(i, c)| c.as_ref().ok().map(|c| (*i, c))).collect();
+    // the helper functions of the generated crates repeat: one case per distinct (Lowered, answer)
+    let mut seen_fp = BTreeSet::new();
+    let cases: Vec<(usize, &trans::FnCase)> = all_cases.iter().copied().filter(|(_, c)| seen_fp.insert((c.fingerprint, c.expected.clone()))).collect();
     let mut distinct = BTreeSet::new();
     let mut nontrivial = BTreeSet::new();
     let mut tot = trans::FnStats::default();
@@ -385,7 +408,7 @@ fn main() {
     let mut samples = String::new();
     for (s, chunk) in cases.chunks(per_shard).enumerate() {
         let mut v = String::new();
-        writeln!(v, "From C08 Require Import Lowered Borrow Corr.\nImport ListNotations.\nDefinition cases : list bcase := [").unwrap();
+        writeln!(v, "From Coq Require Import List.\nFrom C08 Require Import Lowered Borrow Corr.\nImport ListNotations.\nDefinition cases : list bcase := [").unwrap();
         for (j, (_, c)) in chunk.iter().enumerate() {
             let exp: Vec<String> = c.expected.iter().map(|(k, l)| format!("({k},{l})")).collect();
             writeln!(v, "  (* {} *)\n  mkcase {} (\n    {})\n    [{}] {}{}", c.name, s * per_shard + j, c.coq, exp.join(";"), c.lowering_has_errors,
@@ -410,7 +433,7 @@ fn main() {
         "injected_units": n_inj, "injected_with_expected_diagnostic_kind": n_inj_kind_ok,
         "units_accepted_in_all_configs": accepted_all,
         "configs": cfg_summ,
-        "functions_translated": cases.len(), "functions_distinct": distinct.len(), "functions_nontrivial_distinct": nontrivial.len(),
+        "functions_translated": all_cases.len(), "function_cases_after_dedup": cases.len(), "functions_distinct": distinct.len(), "functions_nontrivial_distinct": nontrivial.len(),
         "functions_with_real_borrow_diagnostics": with_diag,
         "real_diagnostics_by_kind": {"VariableMoved": kinds[0], "VariableNotDropped": kinds[1], "DesnappingANonCopyableType": kinds[2], "other": kinds[3]},
         "totals": {"blocks": tot.blocks, "statements": tot.stmts, "variables": tot.vars, "matches": tot.matches,
